@@ -202,7 +202,7 @@ class AppRun:
 
     def __init__(self, site, argv, chooser, *, strategy=None, workdir=None,
                  connect='immediate', watchdog=20.0, horizon=60000, early=True,
-                 hooks=None, peer=None, chunk=None, bad_cert=()):
+                 hooks=None, peer=None, chunk=None, bad_cert=(), prefix_sub=None):
         self.site, self.argv, self.chooser = site, list(argv), chooser
         self.strategy = strategy
         self.workdir = workdir
@@ -215,6 +215,7 @@ class AppRun:
         self.custom_peer = peer
         self.chunk = chunk
         self.bad_cert = set(bad_cert)
+        self.prefix_sub = prefix_sub
         self.result = None
 
     def run(self, faults=None, on_step=None, on_quiescent=None, setup=None):
@@ -239,7 +240,8 @@ class AppRun:
         os.chdir(wd)
         root_level = logging.getLogger().level
         try:
-            argv = self.argv + ['-P', wd, '--html-parser', 'html5lib', '--very-quiet']
+            argv = self.argv + ['-P', os.path.join(wd, self.prefix_sub) if self.prefix_sub else wd,
+                                '--html-parser', 'html5lib', '--very-quiet']
             if not self.bad_cert:
                 argv.append('--no-check-certificate')
             args = AppArgumentParser().parse_args(argv)
